@@ -290,10 +290,45 @@ func r19d(c *an.Ctx) {
 		if len(dones) == 0 || sel == nil {
 			c.Ob(key, fn.Pos(), false, "no Done() call or no receive of the shutdown signal found in the writing loop")
 		}
+		// "after seeing the signal": dominated by the receive, or unreachable once the case that received the signal is
+		// removed from the select (the signal may be carried to the flush by a flag that ends the loop)
+		var noSignal *an.Flow
+		if sl, isSel := sel.(*ssa.Select); isSel {
+			k := -1
+			for i, st := range sl.States {
+				if f := an.FieldOf(st.Chan); f != nil && f.Name() == "batchingLoopDoneCh" && st.Dir == types.RecvOnly {
+					k = i
+				}
+			}
+			if k >= 0 {
+				noSignal = an.FlowFrom(fn.Blocks[0], func(b *ssa.BasicBlock, succ int) bool {
+					ifi, ok := b.Instrs[len(b.Instrs)-1].(*ssa.If)
+					if !ok || succ != 0 {
+						return false
+					}
+					bo, isBo := ifi.Cond.(*ssa.BinOp)
+					if !isBo || bo.Op != token.EQL {
+						return false
+					}
+					ex, isEx := bo.X.(*ssa.Extract)
+					kk, isK := an.ConstInt(bo.Y)
+					return isEx && ex.Tuple == ssa.Value(sl) && ex.Index == 0 && isK && int(kk) == k
+				})
+			}
+		}
+		afterSignal := func(at ssa.Instruction) bool {
+			if at == nil || sel == nil {
+				return false
+			}
+			if an.Dominates(sel, at) {
+				return true
+			}
+			return noSignal != nil && !noSignal.Reaches(at)
+		}
 		for _, d := range dones {
 			emptyKnown := false
 			for _, g := range an.Guards(d.Block()) {
-				if isEmptinessCond(g, sel) {
+				if at, empty := emptinessCond(g); empty && afterSignal(at) && afterSignal(d) {
 					emptyKnown = true
 				}
 			}
@@ -336,12 +371,12 @@ func r19d(c *an.Ctx) {
 	}
 }
 
-// isEmptinessCond: guard says "buffer empty": Length() ==/<=/> 0 with the right polarity, or
+// emptinessCond: guard says "buffer empty": Length() ==/<=/> 0 with the right polarity, or
 // len(PopMultiple(..)) == 0; evaluated after the shutdown signal (dominated by sel).
-func isEmptinessCond(g an.Cond, sel ssa.Instruction) bool {
+func emptinessCond(g an.Cond) (ssa.Instruction, bool) {
 	bo, ok := g.V.(*ssa.BinOp)
 	if !ok {
-		return false
+		return nil, false
 	}
 	zero := func(v ssa.Value) bool { z, ok := an.ConstInt(v); return ok && z == 0 }
 	isLenCall := func(v ssa.Value) (ssa.Instruction, bool) {
@@ -379,7 +414,7 @@ func isEmptinessCond(g an.Cond, sel ssa.Instruction) bool {
 			empty = !g.Val
 		}
 	}
-	return empty && at != nil && sel != nil && an.Dominates(sel, at)
+	return at, empty && at != nil
 }
 
 func r19e(c *an.Ctx) {
